@@ -50,7 +50,10 @@ def subdivide(
         face_mask = np.ones(len(faces), dtype=bool)
     else:
         face_mask = np.zeros(len(faces), dtype=bool)
-        face_mask[face_index] = True
+        # a tuple would be taken as a multi-dimensional index
+        face_index = np.asanyarray(face_index)
+        if face_index.size > 0:
+            face_mask[face_index] = True
 
     # the (c, 3) int array of vertex indices
     faces_subset = faces[face_mask]
